@@ -386,6 +386,7 @@ def run_group(rec, rng, case, do_membership=True, do_zip=True):
         for li, layout in enumerate(layouts):
             root = "%s/L%d" % (base, li)
             reg = fm.materialise(root, layout, files, rng=rng_for(0, "junk", li))
+            rec.count("population.stray_date_like_directories", fm.LAST["strays"])
             by_id = {f["id"]: p for p, f in reg.items()}
             names = [by_id[i] for i in case["excl"]["names_idx"] if i in by_id]
             excl = list(names) + list(periods)
